@@ -200,3 +200,35 @@ func Harness_C12_prune() {
 	check("again-")
 	zzverif.Reach("end")
 }
+
+// Many refs: more ref tips than the commits queue's growth step is clamped at (1024).
+// One concrete repository (a single evaluation, like the ladder of C08): n tagged
+// root commits sharing one table, one unreachable commit; prune must not crash, must
+// keep every tagged commit and remove the unreachable one.
+func Harness_C12_many_refs() {
+	n := zzverif.Param("n", 1100)
+	db := zzrepo.NewObjStore()
+	rs := zzrepo.NewRefStore()
+	tsum, _ := zzrepo.SaveTable(db, []string{"a", "b"}, []uint32{0}, [][]string{{"1", "x"}}, 255)
+	osum, _ := zzrepo.SaveTable(db, []string{"a", "b"}, []uint32{0}, [][]string{{"2", "y"}}, 255)
+	var sums [][]byte
+	for i := 0; i < n; i++ {
+		s, _ := zzrepo.SaveCommit(db, tsum, fmt.Sprintf("c%d", i), int64(1600000000+i))
+		rs.Refs[fmt.Sprintf("tags/t%04d", i)] = s
+		sums = append(sums, s)
+	}
+	orphan, _ := zzrepo.SaveCommit(db, osum, "orphan", 1600009999)
+	err := Prune(db, rs, nil)
+	zzverif.Assert("prune-no-error", err == nil)
+	kept := 0
+	for _, s := range sums {
+		if objects.CommitExist(db, s) {
+			kept++
+		}
+	}
+	zzverif.Assert("every-tagged-commit-kept", kept == n)
+	zzverif.Assert("shared-table-kept", objects.TableExist(db, tsum))
+	zzverif.Assert("unreachable-commit-removed", !objects.CommitExist(db, orphan))
+	zzverif.Assert("table-of-removed-commit-removed", !objects.TableExist(db, osum))
+	zzverif.Reach("end")
+}
